@@ -863,6 +863,29 @@ def f(x: FLOAT[...], y: FLOAT[...], n: INT64):
 ''', ["x:F:2 y:F:2 n:I:"])
 
 # ---------------------------------------------------------------- sub-function calls
+# ---------------------------------------------------------------- a Python constant chosen by an If is still a constant
+P("literal_merged_by_if", '''
+@script()
+def f(x: FLOAT[...], c: INT64):
+    if c > 0:
+        k = 1
+    else:
+        k = 2
+    return op.Add(x, k)
+''', ["x:F:2 c:I:"])
+
+P("literal_merged_by_if_float_and_operator", '''
+@script()
+def f(x: FLOAT[...], y: INT64[...], c: BOOL):
+    if c:
+        k = 3
+        h = 0.5
+    else:
+        k = 4
+        h = 1.5
+    return x * k + h, y + k
+''', ["x:F:2 y:I:2 c:B:"])
+
 # ---------------------------------------------------------------- subscripts that need temporaries, repeated on one variable
 P("subscript_mixed_twice", '''
 @script()
